@@ -7,6 +7,7 @@ from checks.c04 import KERNELS, POINTS, REGIONS, WEIGHTS, imager_kwargs
 from mc.choices import explore
 from mc.seams import JoblibSeam
 
+CALL_VARIANTS = True   # every whitelisted persim call is repeated with its arrays in another memory layout (mc/ctx.py)
 PROPERTY = "C11"
 RULE = (
     "imager configurations: the C04 cover (2 regions x pixel {1,0.5} x 14 kernels x 5 weights); diagrams: "
